@@ -104,6 +104,9 @@ type Chan struct {
 	sendSeq uint64
 	recvSeq uint64
 	auto    bool
+	reply   bool // cap-1 channel used as a one-shot reply slot (discipline checked at run time)
+	nsend   int
+	nrecv   int
 }
 
 type slot struct {
@@ -136,6 +139,9 @@ type G struct {
 	Log      []string // per-goroutine observation log (harness use)
 	panicked bool
 }
+
+// ChainID identifies the goroutine independently of the schedule.
+func (g *G) ChainID() H { return HashString(g.path) }
 
 func (g *G) String() string { return fmt.Sprintf("g%d[%s]", g.seq, g.name) }
 
@@ -263,6 +269,7 @@ type Sched struct {
 	en      []Trans
 	waitR   map[*Chan][]waiter
 	stop    bool
+	esteps  int
 	heart   *uint64
 	Values  map[string]interface{} // harness scratch, reset per execution
 }
@@ -402,6 +409,19 @@ func (s *Sched) loop() {
 		s.cur = nil
 		if s.stop {
 			break
+		}
+		if t, ok := s.eager(); ok {
+			if s.cfg.Trace {
+				s.res.Trace = append(s.res.Trace, fmt.Sprintf("%4d [eager] %s", s.steps, t.String()))
+			}
+			s.apply(t)
+			s.steps++
+			s.esteps++
+			if s.steps >= s.cfg.MaxSteps {
+				s.res.StepLimit = true
+				break
+			}
+			continue
 		}
 		en := s.enabled()
 		if len(en) == 0 {
@@ -592,6 +612,50 @@ func (s *Sched) enabled() []Trans {
 	return en
 }
 
+// NoEager disables the persistent-singleton reductions (self-test differential).
+var NoEager = os.Getenv("VS_NO_EAGER") != ""
+
+// eager returns a transition that is independent of every transition any
+// other goroutine can take now or later, so that exploring it alone is a
+// persistent set (DESIGN.md 2.3a):
+//   - R-closed: a one-case receive on a closed and empty channel;
+//   - R-reply: the single send into / single receive from a one-shot reply slot
+//     (cap-1 channel with at most one send, one receive, no close, no observer;
+//     the discipline is enforced by replyCheck, a breach is an engine error).
+func (s *Sched) eager() (Trans, bool) {
+	if NoEager {
+		return Trans{}, false
+	}
+	for _, g := range s.gs {
+		o := g.pend
+		if g.done || o == nil || o.kind != opSelect || o.hasDefault || len(o.cases) != 1 {
+			continue
+		}
+		c := &o.cases[0]
+		ch := c.ch
+		if ch == nil {
+			continue
+		}
+		if c.dir == dirRecv {
+			if len(ch.buf) == 0 && ch.closed {
+				return Trans{Kind: tCase, G: g, Ci: 0}, true
+			}
+			if ch.reply && len(ch.buf) > 0 {
+				return Trans{Kind: tCase, G: g, Ci: 0}, true
+			}
+		} else if ch.reply && !ch.closed && len(ch.buf) < ch.cap {
+			return Trans{Kind: tCase, G: g, Ci: 0}, true
+		}
+	}
+	return Trans{}, false
+}
+
+func (s *Sched) replyBreach(ch *Chan, what string) {
+	if ch.reply && !NoEager {
+		EngineError("channel %s (cap 1) was treated as a one-shot reply slot but %s; rerun with VS_NO_EAGER=1", ch.name, what)
+	}
+}
+
 func (s *Sched) resume(g *G) {
 	s.runq = append(s.runq, g)
 	s.last = g
@@ -618,6 +682,10 @@ func (s *Sched) apply(t Trans) {
 				s.bump(g, 0x11, uint64(t.Ci))
 			} else {
 				ch.sendSeq++
+				ch.nsend++
+				if ch.reply && ch.nsend > 1 {
+					s.replyBreach(ch, "received a second send")
+				}
 				s.bump(g, 0x12, uint64(t.Ci), ch.hid.A, ch.hid.B, ch.sendSeq)
 				ch.buf = append(ch.buf, slot{c.val, g.chain})
 			}
@@ -626,6 +694,10 @@ func (s *Sched) apply(t Trans) {
 				sl := ch.buf[0]
 				ch.buf = ch.buf[1:]
 				ch.recvSeq++
+				ch.nrecv++
+				if ch.reply && ch.nrecv > 1 {
+					s.replyBreach(ch, "was received from twice")
+				}
 				o.val, o.ok = sl.val, true
 				s.bump(g, 0x13, uint64(t.Ci), ch.hid.A, ch.hid.B, ch.recvSeq, sl.src.A, sl.src.B)
 			} else {
@@ -655,6 +727,9 @@ func (s *Sched) apply(t Trans) {
 		for ci := range o.cases {
 			if ch := o.cases[ci].ch; ch != nil {
 				vals = append(vals, ch.hid.A, ch.sendSeq, ch.recvSeq)
+				if ch.reply {
+					s.replyBreach(ch, "is observed by a select with default")
+				}
 			}
 		}
 		s.bump(g, vals...)
@@ -671,6 +746,9 @@ func (s *Sched) apply(t Trans) {
 			o.panicMsg = "close of closed channel"
 			s.bump(g, 0x19, ch.hid.A, ch.hid.B)
 		default:
+			if ch.reply {
+				s.replyBreach(ch, "was closed")
+			}
 			ch.closed = true
 			s.bump(g, 0x1a, ch.hid.A, ch.hid.B, ch.sendSeq)
 			ch.closeH = g.chain
@@ -735,7 +813,7 @@ func (s *Sched) register(p unsafe.Pointer, capacity int, label string) *Chan {
 	if g == nil {
 		EngineError("MakeChan outside controlled goroutine")
 	}
-	c = &Chan{name: fmt.Sprintf("ch%s#%d%s", g.path, g.nmake, label), cap: capacity}
+	c = &Chan{name: fmt.Sprintf("ch%s#%d%s", g.path, g.nmake, label), cap: capacity, reply: capacity == 1 && label == ""}
 	c.hid = Mix(g.chain, 0x70, uint64(g.nmake))
 	g.nmake++
 	s.chans[p] = c
